@@ -18,7 +18,8 @@ lane() {
     d=$DIR/seeded/$id
     [ -f $d/patch.diff ] || continue
     git -C $wt apply $d/patch.diff || { echo "$id apply-failed"; continue; }
-    for c in $(python3 -c "import json;print(' '.join(json.load(open('$d/meta.json'))['checks']))"); do
+    # OWN_ONLY=1: only the check of the change's own property (a quick regression pass over all changes)
+    for c in $(python3 -c "import json,os;m=json.load(open('$d/meta.json'));print(m['property'] if os.environ.get('OWN_ONLY') else ' '.join(m['checks']))"); do
       out=$(VERIF_REPO=$wt ./check $c --tier quick 2>&1); rc=$?
       nat=$(echo "$out" | grep -c "native failing input"); ref=$(echo "$out" | grep -c "verdict=refuted"); nfi=$(echo "$out" | grep -c "no-failing-input-found"); und=$(echo "$out" | grep -c "^UNDECIDED")
       echo "$id check=$c rc=$rc native=$nat refuted=$ref nofail=$nfi undecided=$und | $(echo "$out" | grep -m1 '^VIOLATION' | cut -c1-150)"
